@@ -252,7 +252,11 @@ fn main() {
         for (name, chk) in search::checks_for(pid) {
             for i in 0..iters {
                 let mut g = search::Gen::random(seed.wrapping_add(i).wrapping_mul(2654435761).wrapping_add(name.len() as u64));
-                let r = chk(&mut g);
+                let r = match std::panic::catch_unwind(std::panic::AssertUnwindSafe(|| chk(&mut g))) {
+                    Ok(r) => r,
+                    Err(e) => Err(format!("the library panicked during check '{}': {}", name,
+                        if let Some(s) = e.downcast_ref::<&str>() { s.to_string() } else if let Some(s) = e.downcast_ref::<String>() { s.clone() } else { "panic".into() })),
+                };
                 evals += 1;
                 distinct.insert(g.tape.iter().take(24).cloned().collect::<Vec<u8>>());
                 if let Err(m) = r {
@@ -274,7 +278,10 @@ fn main() {
         let tape: Vec<u8> = (0..h.len() / 2).map(|i| u8::from_str_radix(&h[2 * i..2 * i + 2], 16).unwrap_or(0)).collect();
         let prev = std::panic::take_hook();
         std::panic::set_hook(Box::new(|_| {}));
-        let r = chk(&mut search::Gen::replay(tape));
+        let r = match std::panic::catch_unwind(std::panic::AssertUnwindSafe(|| chk(&mut search::Gen::replay(tape)))) {
+            Ok(r) => r,
+            Err(e) => Err(format!("the library panicked: {}", if let Some(s) = e.downcast_ref::<&str>() { s.to_string() } else if let Some(s) = e.downcast_ref::<String>() { s.clone() } else { "panic".into() })),
+        };
         std::panic::set_hook(prev);
         match r { Err(m) => { println!("REPRODUCED {}", m); std::process::exit(1) } Ok(()) => { println!("NOT-REPRODUCED"); return } }
     }
